@@ -40,6 +40,8 @@ type arena struct {
 	orig    []byte
 	off     int
 	damaged bool
+	// arguments that did not fit and were handed out as separate allocations
+	overflowed int
 }
 
 func newArena(t *rapid.T, n int) *arena {
@@ -54,6 +56,11 @@ func (a *arena) take(content []byte) []byte {
 	}
 	if !bytes.Equal(a.buf, a.orig) {
 		a.damaged = true // a previous call wrote outside what it was allowed to: remember it before handing out more
+	}
+	if a.off+len(content) > len(a.buf) {
+		// the arena is full (doubled FrodoKEM encodings): this argument gets a buffer of its own
+		a.overflowed++
+		return append([]byte{}, content...)
 	}
 	copy(a.buf[a.off:], content)
 	copy(a.orig[a.off:], content)          // only the bytes handed out now change in the snapshot: earlier damage stays visible
@@ -387,7 +394,7 @@ func TestC11SeqArgs(t *testing.T) {
 			vlib.Check(t, vlib.N(6, 60), func(t *rapid.T) {
 				// the same drawn contents are needed twice: record them in the first pass
 				var contents [][]byte
-				a := newArena(t, 1<<16)
+				a := newArena(t, 1<<18)
 				a.freeze()
 				first := true
 				var got string
